@@ -555,6 +555,10 @@ func (g *Gen) body() []byte {
 		n = 10242
 	case 5:
 		n = 40000
+		if g.R.Intn(5) == 0 {
+			// far above the limit, up to just below what the transport accepts (32 MiB frames)
+			n = []int{70000, 1 << 20, 4<<20 + 7, 9 << 20, 20 << 20, 31 << 20}[g.R.Intn(6)]
+		}
 	default:
 		n = 1 + g.R.Intn(64)
 	}
